@@ -6,14 +6,17 @@
    FULL statement:  forall f c, cbo_deps default_options f c = cbo_spec f c
    (the dependency set is exactly the set of distinct other classes named as base, in annotations,
    or instantiated -- imported or same-file -- in any position, built-ins excluded).
-   It is FALSE of the current code for classes referenced through their module (pkg.X):
-   C13_qualified_refuted, and for a generic written on a side of a union (List[X] | None):
-   C13_generic_in_union_refuted.  Proved: C13_exact_partial for classes without those two forms,
-   in every position and for every other import form.  Before the fix: commits of this
-   round it was also false for instantiations under else/except/finally/conditions/operands/...
-   (F15), for `from m import X` (F14), for self-references (F10) and for the sub-expressions
-   ast_builder.go dropped (F13); those are now theorems (C13_positions_all_visited,
-   C13_exact_partial, C13_count_distinct_not_self). *)
+   Proved: C13_exact, for every class of the syntax Class/Syntax.v whose identifiers are not empty
+   and whose calls stand in expression positions (both are well-formedness conditions of the
+   syntax, not restrictions on the forms): every reference form (X, mod.X -- listed as "mod.X"),
+   every annotation shape (generics, unions, generics inside unions and unions inside generics),
+   every position, every import form.
+   Before the fix: commits it was false for classes referenced through their module (F29, fix
+   aa7c715), for a generic written on a side of a union (F31, fix aa7c715 + b2f1993), for
+   instantiations under else/except/finally/conditions/operands/... (F15), for `from m import X`
+   (F14), for self-references (F10) and for the sub-expressions ast_builder.go dropped (F13); the
+   former witnesses are now C13_qualified_counted and C13_generic_in_union_counted.
+   Parametrised base classes and module-qualified generic containers: Props/C13Generic.v. *)
 From Coq Require Import ZArith NArith List String Permutation.
 From PV Require Import Gen.ClassConst Class.Syntax Class.SetK Class.CBO Class.CBOProofs.
 Import ListNotations.
@@ -35,22 +38,26 @@ Proof. exact expr_positions_reached_at. Qed.
 Theorem C13_walk_never_pruned : cbo_walk_never_pruned = true.
 Proof. exact (proj2 (proj2 (proj2 code_flags))). Qed.
 
-(* model = spec, all positions, all import forms except module-qualified references *)
-Theorem C13_exact_partial : forall f c, plain_class c -> unions_flat_class c -> inst_positions_ok c ->
+(* model = spec: all positions, all import forms, all reference forms, all annotation shapes *)
+Theorem C13_exact : forall f c, named_class c -> inst_positions_ok c ->
   cbo_deps default_options f c = cbo_spec f c.
-Proof. exact cbo_exact_partial. Qed.
+Proof. exact cbo_exact. Qed.
 
-(* List[X] | None: the type arguments of a generic on a side of a union are not counted *)
-Theorem C13_generic_in_union_refuted :
-  cbo_deps default_options (File [ImpFrom (nm "X")] [nm "K"]) w_union = [] /\
-  cbo_spec (File [ImpFrom (nm "X")] [nm "K"]) w_union = [Plain (nm "X")].
-Proof. exact cbo_generic_in_union_refuted. Qed.
+(* the former counterexamples.  List[X] | None, Y | Dict[str, Z]: the type arguments of a generic on
+   either side of a union are counted *)
+Theorem C13_generic_in_union_counted :
+  cbo_deps default_options (File [ImpFrom (nm "X")] [nm "K"]) w_union = [Plain (nm "X"); Plain (nm "Y"); Plain (nm "Z")] /\
+  cbo_spec (File [ImpFrom (nm "X")] [nm "K"]) w_union = [Plain (nm "X"); Plain (nm "Y"); Plain (nm "Z")].
+Proof. exact cbo_generic_in_union_counted. Qed.
 
-Theorem C13_qualified_refuted :
-  cbo_deps default_options w_file w_base = [] /\ cbo_spec w_file w_base = [Qual (nm "pkg") (nm "Base")] /\
-  cbo_deps default_options w_file w_annot = [] /\ cbo_spec w_file w_annot = [Qual (nm "pkg") (nm "T")] /\
-  cbo_deps default_options w_file w_inst = [] /\ cbo_spec w_file w_inst = [Qual (nm "pkg") (nm "C")].
-Proof. exact cbo_qualified_refuted. Qed.
+(* class K(pkg.Base), x: pkg.T, pkg.C() after `import pkg`: counted, under the dotted name; pkg.C()
+   without the import is not an instantiation of an imported class *)
+Theorem C13_qualified_counted :
+  cbo_deps default_options w_file w_base = [Qual (nm "pkg") (nm "Base")] /\ cbo_spec w_file w_base = [Qual (nm "pkg") (nm "Base")] /\
+  cbo_deps default_options w_file w_annot = [Qual (nm "pkg") (nm "T")] /\ cbo_spec w_file w_annot = [Qual (nm "pkg") (nm "T")] /\
+  cbo_deps default_options w_file w_inst = [Qual (nm "pkg") (nm "C")] /\ cbo_spec w_file w_inst = [Qual (nm "pkg") (nm "C")] /\
+  cbo_deps default_options (File [] [nm "K"]) w_inst = [] /\ cbo_spec (File [] [nm "K"]) w_inst = [].
+Proof. exact cbo_qualified_counted. Qed.
 
 (* the count is the number of listed dependencies, each listed once, never the class itself *)
 Theorem C13_count_distinct_not_self : forall o f c,
@@ -123,9 +130,9 @@ Proof. exact default_thresholds. Qed.
 Print Assumptions C13_positions_all_visited.
 Print Assumptions C13_nested_positions_all_visited.
 Print Assumptions C13_walk_never_pruned.
-Print Assumptions C13_exact_partial.
-Print Assumptions C13_qualified_refuted.
-Print Assumptions C13_generic_in_union_refuted.
+Print Assumptions C13_exact.
+Print Assumptions C13_qualified_counted.
+Print Assumptions C13_generic_in_union_counted.
 Print Assumptions C13_count_distinct_not_self.
 Print Assumptions C13_perm_invariant.
 Print Assumptions C13_repeat_member.
